@@ -225,6 +225,8 @@ fn panic_code(payload: &(dyn std::any::Any + Send)) -> u32 {
         5
     } else if msg.contains("PropagatedPanic") {
         7
+    } else if msg.contains("cannot be accessed before calling `init`") {
+        8
     } else {
         eprintln!("harness: unclassified panic: {msg}");
         99
@@ -477,7 +479,9 @@ fn run_case(line: &str) {
     for c in CELLS.iter().chain(PCELLS.iter()) {
         c.store(0, Ordering::SeqCst);
     }
-    let n_inputs = ni.max(nk);
+    // one extra input: the key index `nk` is never reached by `(call ..)` (keys are taken
+    // mod nk); generated histories use it to call a function without touching program nodes
+    let n_inputs = ni.max(nk) + 1;
     let mut inputs = Vec::new();
     for i in 0..n_inputs {
         let g = |f: usize| *ival.get(&(i, f)).unwrap_or(&0) as u8;
